@@ -228,7 +228,7 @@ fn compare_runs(f0: &tfm::File, f1: &tfm::File, rng: &mut Rng, pair_cap: usize) 
         s.insert(b.0);
     }
     let sv: Vec<u8> = s.iter().copied().collect();
-    let mut check = |w: &str, r: &mut RunCmp| {
+    let check = |w: &str, r: &mut RunCmp| {
         for nlb in [false, true] {
             r.words += 1;
             let a = run_word(&p0, w, nlb);
